@@ -125,8 +125,8 @@ CLAIMS = {
         tech='Coq proof (case analysis over positions of symbolic token lists, induction over table lists) + differential check on a structured malformed stream + oracle through the real servers'),
     'C11': dict(
         text='Coq theorems c11_table (for EVERY announced version string, both kinds, every outcome: refusal without initialize / bare success / success announcing the agreed version, per the table of the property), c11_table_meta / c11_table_data '
-             '(the table spelled out), c11_params (local wins, reserved keys never from the Proxy), c11_listener, c11_error_typed, c11_close_flag, c11_hint_regardless (Props/C11.v). Init model vs the real servers '
-             '(initialize arguments, set_listener, reply line, close flag, hint handed over), the close flag observed by sending a real CLOSE request, and the Coq table vs the property text restated in Python.',
+             '(the table spelled out), c11_params (local wins, reserved keys never from the Proxy), c11_listener, c11_error_typed, c11_close_flag, c11_hint_regardless, c11_malformed_hint_discarded (a hint value that float() certainly rejects is discarded; the reply never depends on the hint) (Props/C11.v). Init model vs the real servers '
+             '(initialize arguments, set_listener, reply line, close flag, hint handed over), the close flag observed by sending a real CLOSE request, and the Coq table vs the property text restated in Python; the value of the reserved hint key ranges over numbers, non-numbers and arbitrary text.',
         ref='6 C11',
         note='the keepalive hint text is compared as handed over (its effect is C12); exception messages of refusals are modelled literally.',
         tech='Coq proof (finite case split on five literal comparisons and one prefix test, dict lemmas) + differential check through the real servers + oracle'),
